@@ -92,6 +92,20 @@ def texts(w, seed=0, name=""):
         ("punct", "p.,;:-_/()"[:w], "l"),
         ("quotes", "q\"'="[:w], "l"),
         ("lower", "mixedCase"[:w], "l"),
+        # texts that look like values of another type: a free-text field must surface them unchanged
+        ("datetime16", "2014082913370512", "l"),
+        ("datetime17", "20140829133705123", "l"),
+        ("date8", "20140829", "l"),
+        ("iso", "2014-08-29T13:37", "l"),
+        ("floatlike", "1.5E+03", "l"),
+        ("intlike", "-42", "r"),
+        ("nan", "nan", "l"),
+        ("inf", "-inf", "l"),
+        ("none", "None", "l"),
+        ("true", "true", "l"),
+        ("ones", "1" * w, "l"),
+        ("zeros", "0" * w, "l"),
+        ("digits", "1234567890123456789012345678901234567890"[:w], "l"),
     ]
     return _fit(cands, w)
 
